@@ -180,6 +180,7 @@ fn prop_prefix(prop: &str) -> &'static str {
         "C03" => "durability",
         "C13" => "stack",
         "C07" => "prune",
+        "C10" => "growth",
         "C16" => "names",
         "C20" => "resources",
         "C09" => "queue",
